@@ -534,6 +534,9 @@ func compareDumps(mode, an, bn string, a, b *Dump, f *facts) *cmpCtx {
 			sort.Strings(ks)
 			for _, k := range ks {
 				x, y := ra[k], rb[k]
+				if x.Err == "error" && y.Err == "error" {
+					c.obs["readat_fails_in_both_stores(agreement, not judged): "+kind]++
+				}
 				if (x.Err == "error") != (y.Err == "error") {
 					side, et := an, x.ErrText
 					if y.Err == "error" {
@@ -546,6 +549,9 @@ func compareDumps(mode, an, bn string, a, b *Dump, f *facts) *cmpCtx {
 			}
 			for side, rm := range []map[string]readRes{ra, rb} {
 				n := pick(side == 0, an, bn)
+				if c.mode != "stores" {
+					break // absolute checks belong to the stores comparison; here only differences count
+				}
 				for k, x := range rm {
 					if x.Truth != "" && x.Truth != "?" {
 						c.add("bytes:"+kind+"-wrong-content@"+n, "ReadAt returned bytes that are not the file's bytes: "+x.Truth, p, k, nil)
@@ -560,8 +566,14 @@ func compareDumps(mode, an, bn string, a, b *Dump, f *facts) *cmpCtx {
 		if na.PReads != nil && nb.PReads != nil {
 			cmpReads("prereader-readat", na.PReads, nb.PReads)
 		}
+		if c.mode != "stores" && (len(na.PreCB) > 0) != (len(nb.PreCB) > 0) {
+			c.add("preread:bad-callback-on-one-side", "a pre-read callback was handed wrong data in one of two walks of the same blob", p, fmt.Sprint(na.PreCB), fmt.Sprint(nb.PreCB))
+		}
 		for side, nd := range []*nodeRec{na, nb} {
 			n := pick(side == 0, an, bn)
+			if c.mode != "stores" {
+				break
+			}
 			for _, pc := range nd.PreCB {
 				c.add("preread:bad-callback@"+n, pc, p, nil, nil)
 				break
